@@ -144,8 +144,13 @@ class Check:
         ev = {"property_id": self.pid, "tier": self.tier, "seed": self.seed,
               "level": self.level, "coverage": cov, "assumptions": self.assumptions,
               "wall_s": round(wall, 2), "violations": len(self.violations)}
-        os.makedirs(EVID, exist_ok=True)
-        util.jdump(ev, os.path.join(EVID, "%s.json" % self.pid))
+        evdir = EVID
+        if os.environ.get("VERIF_NO_EVIDENCE"):
+            # runs against a deliberately changed tree (seeded regressions) must not
+            # overwrite the evidence of the registered tree
+            evdir = os.path.join(util.scratch_root(), "vf-evidence-scratch")
+        os.makedirs(evdir, exist_ok=True)
+        util.jdump(ev, os.path.join(evdir, "%s.json" % self.pid))
         self.scratch.cleanup()
         for k in self.known_hit:
             print("KNOWN-FINDING: property=%s %s" % (self.pid, k["what"]))
